@@ -598,6 +598,9 @@ impl FunctionCompiler<'_> {
             } => {
                 let continue_block = self.continues[&label];
 
+                // run the defers of every block between here and the loop
+                self.run_defers_to_label(label);
+
                 self.builder.ins().jump(continue_block, &[]);
             }
             hir::Stmt::Continue { label: None, .. } => unreachable!(),
@@ -620,32 +623,7 @@ impl FunctionCompiler<'_> {
     fn break_to_label(&mut self, value: Option<Value>, label: hir::ScopeId) {
         let exit_block = self.exits[&label];
 
-        // run all the defers from here, backwards to the one we are breaking out of
-
-        let mut used_frames = Vec::new();
-
-        // todo: don't do popping
-        while let Some(frame) = self.defer_stack.last().cloned() {
-            // the exit block of every Expr::Block contains the instructions for running
-            // the defers. This break instruction jumps to that exit block.
-            // therefore, we only need to insert extra defer handling for everything OTHER
-            // than the block we are breaking to.
-            if let Some(id) = frame.id {
-                if id == label {
-                    break;
-                }
-            }
-
-            // do it in reverse to make sure later defers can still rely on the allocations of
-            // previous defers
-            for defer in frame.defers.iter().rev() {
-                self.compile_expr(*defer);
-            }
-
-            used_frames.push(self.defer_stack.pop().unwrap());
-        }
-
-        self.defer_stack.extend(used_frames.into_iter().rev());
+        self.run_defers_to_label(label);
 
         if let Some(value) = value {
             self.builder
@@ -654,6 +632,32 @@ impl FunctionCompiler<'_> {
         } else {
             self.builder.ins().jump(exit_block, &[]);
         };
+    }
+
+    /// Compiles the defers which have been reached so far, for every frame from the top of
+    /// the defer stack down to (and including) the frame of `label`.
+    ///
+    /// Exit blocks don't run any defers themselves, since a jump to an exit block might come
+    /// from a point where only some of the block's defers have been reached.
+    fn run_defers_to_label(&mut self, label: hir::ScopeId) {
+        let mut used_frames = Vec::new();
+
+        // todo: don't do popping
+        while let Some(frame) = self.defer_stack.last().cloned() {
+            // do it in reverse to make sure later defers can still rely on the allocations of
+            // previous defers
+            for defer in frame.defers.iter().rev() {
+                self.compile_expr(*defer);
+            }
+
+            used_frames.push(self.defer_stack.pop().unwrap());
+
+            if frame.id == Some(label) {
+                break;
+            }
+        }
+
+        self.defer_stack.extend(used_frames.into_iter().rev());
     }
 
     fn store_default_in_memory(&mut self, expected_ty: Intern<Ty>, memory: MemoryLoc) {
@@ -1392,6 +1396,21 @@ impl FunctionCompiler<'_> {
                     .flatten();
 
                 if !no_eval {
+                    // the end of the block was reached, so unwind our defers.
+                    // do it in reverse to make sure later defers can still rely on the
+                    // allocations of previous defers
+                    let defers = self
+                        .defer_stack
+                        .last()
+                        .expect("we just pushed this")
+                        .defers
+                        .clone();
+                    for defer in defers.iter().rev() {
+                        self.compile_expr(*defer);
+                    }
+                }
+
+                if !no_eval {
                     if let Some(value) = value {
                         self.builder
                             .ins()
@@ -1461,19 +1480,10 @@ impl FunctionCompiler<'_> {
                 self.builder.switch_to_block(exit_block);
                 self.builder.seal_block(exit_block);
 
-                // unwind our defers
-
+                // the defers were already compiled wherever this block is left
+                // (see `run_defers_to_label` and the end of the block above)
                 let defer_frame = self.defer_stack.pop().expect("we just pushed this");
-
-                if !no_eval || scope_id.is_some() {
-                    debug_assert_eq!(defer_frame.id, scope_id);
-
-                    // do it in reverse to make sure later defers can still rely on the allocations of
-                    // previous defers
-                    for defer in defer_frame.defers.iter().rev() {
-                        self.compile_expr(*defer);
-                    }
-                }
+                debug_assert_eq!(defer_frame.id, scope_id);
 
                 if final_ty.into_real_type().is_some() {
                     Some(self.builder.block_params(exit_block)[0])
@@ -1581,7 +1591,8 @@ impl FunctionCompiler<'_> {
                 if let Some(ty) = ty.into_real_type() {
                     self.builder.append_block_param(exit_block, ty);
                 }
-                if let Some(scope_id) = self.world_bodies[self.loc.file()].block_to_scope_id(expr) {
+                let scope_id = self.world_bodies[self.loc.file()].block_to_scope_id(expr);
+                if let Some(scope_id) = scope_id {
                     self.continues.insert(scope_id, header_block);
                     self.exits.insert(scope_id, exit_block);
                 }
@@ -1603,7 +1614,16 @@ impl FunctionCompiler<'_> {
                 self.builder.switch_to_block(body_block);
                 self.builder.seal_block(body_block);
 
+                // a frame for the loop itself, so that `break` and `continue` know where to
+                // stop unwinding
+                self.defer_stack.push(DeferFrame {
+                    id: scope_id,
+                    defers: Vec::new(),
+                });
+
                 self.compile_expr(body);
+
+                self.defer_stack.pop().expect("we just pushed this");
 
                 self.builder.ins().jump(header_block, &[]);
 
